@@ -43,7 +43,7 @@ def register(R):
     R.add(Contract(B_ + 'SubBuilder.get_lookup_dirs', [sub(), P.val('ref_point', 'any')], name='abstract', assume_only=True, pure=True, result=dirs_result,
                    props=('C06',), opts={'callee': False}, note='the lookup directories: the same sequence on every call for the same builder and reference file'))
     R.add(Contract(B_ + 'Builder.add_source', [P.node('self', 'Builder'), P.val('source', 'any')], name='file', assume_only=True,
-                   effects=[('add-source',)], modifies=lambda c: [('stages', [c.ref('self')])] + [(f, (lambda r: r < -1000000)) for f in ('$llen', '$litem')],
+                   effects=[('C06+C07.add-source',)], modifies=lambda c: [('stages', [c.ref('self')])] + [(f, (lambda r: r < -1000000)) for f in ('$llen', '$litem')],
                    raises=[Raises('FileNotFoundError', when=lambda c: z3.Not(FileExists(c['source'])), exact=True)], props=('C06',),
                    opts={'callee': False, 'bind_partial': True}, note='reading a file: FileNotFoundError iff the file does not exist (the file system as an uninterpreted predicate); touches only the lists of the sub-builder (objects created by get_subbuilder)'))
     R.add(Contract(B_ + 'SubBuilder.build', [sub()], name='abstract', assume_only=True, modifies=lambda c: [('stages', 'all')] + [(f, (lambda r: r < -1000000)) for f in ('$llen', '$litem')],
@@ -89,8 +89,13 @@ def register(R):
                                         L.heap.get('_source_file', c.ref('self')) == L.entry_heap.get('_source_file', c.ref('self'))))]
 
     def gate_add(sc, kw):
-        # a file is read only through the sub-builder of this include, and only as the normalised join of a lookup directory and a name
-        return z3.BoolVal(True)
+        # C07 "read from a source added with safe=False, or INCLUDED BY SUCH CONTENT": the included file is parsed with the EFFECTIVE safety
+        # of the include node (own mark, inherited mark and the safety of the source it was written in), as a file, not as raw text
+        k = kw.get('kwargs', {})
+        sf = k.get('safe')
+        if not isinstance(sf, SV):
+            return z3.BoolVal(False)
+        return z3.And(is_bool(sf.t), b_of(sf.t) == S.safe(kw['heap'], sc.ref('self')))
 
     def req(c):
         s = c.ref('self')
@@ -112,6 +117,27 @@ def register(R):
             with open(os.path.join(base, 'sub', 'c.yaml'), 'w') as f:
                 f.write('c: 1\n')
             present = {'a.yaml', 'b.yaml', 'sub/c.yaml'}
+            if 'add-source' in (obl_name or ''):
+                # the safety handed to the sub-builder: a file included by a source added with safe=False must not reach a call
+                with open(os.path.join(base, 'dyn.yaml'), 'w') as f:
+                    f.write('f: !call:builtins.dict {x: 1}\n')
+                main = os.path.join(base, 'main_unsafe.yaml')
+                with open(main, 'w') as f:
+                    f.write('k: !include dyn.yaml\n')
+                b = ay.Builder()
+                b.add_source(main, safe=False)
+                try:
+                    cfg = ay.Config(b.build())
+                    return {'verdict': 'violates', 'input': {'source': 'k: !include dyn.yaml (added with safe=False)', 'dyn.yaml': 'f: !call:builtins.dict {x: 1}'},
+                            'detail': f'a call node in a file included by a source added with safe=False was executed: {dict(cfg)!r}'}
+                except Exception as e:
+                    chain, cur = [], e
+                    while cur is not None and len(chain) < 6:
+                        chain.append(type(cur).__name__)
+                        cur = cur.__cause__ or cur.__context__
+                    if 'UnsafeError' not in chain:
+                        return {'verdict': 'inconclusive', 'detail': f'build failed with {chain}', 'input': None}
+                return {'verdict': 'holds', 'detail': 'a call included by unsafe content is refused', 'input': None}
             for names_ in itertools.chain(itertools.permutations(['a.yaml', 'nowhere.yaml', 'b.yaml'], 2), itertools.permutations(['a.yaml', 'sub/c.yaml', 'gone.yaml'], 3), [['a.yaml']]):
                 main = os.path.join(base, 'main.yaml')
                 with open(main, 'w') as f:
@@ -141,10 +167,10 @@ def register(R):
                                   mod_where=lambda c, L: [(f, (lambda r: r < -1000000)) for f in ('$llen', '$litem')]),
                           1: Loop(inner, mod_locals=['found', 'lookup_dir', 'file'], mod_fields=['stages'],
                                   mod_where=lambda c, L: [(f, (lambda r: r < -1000000)) for f in ('$llen', '$litem')])},
-                   props=('C06',),
+                   props=('C06', 'C07'),
                    opts={'use': {B_ + 'Builder.get_subbuilder': 'abstract', B_ + 'SubBuilder.get_lookup_dirs': 'abstract', B_ + 'Builder.add_source': 'file', B_ + 'SubBuilder.add_source': 'file',
                                  B_ + 'SubBuilder.build': 'abstract', N_ + 'ConfigNode.ayns.on_preprocess': 'abstract'},
-                         'gates': {'add-source': gate_add}, 'no_search': True, 'no_frame': True, 'gates_on_raise': True, 'skip_kinds': ('safety',),
+                         'gates': {'C06+C07.add-source': gate_add}, 'no_search': True, 'no_frame': True, 'gates_on_raise': True, 'skip_kinds': ('safety',),
                          'replay_direct': replay_direct, 'no_model_replay': True, 'shards': 4},
                    note='lookup of included files; the file system is an uninterpreted predicate'))
 
